@@ -2,7 +2,7 @@
 import z3
 
 from pyvc.contract import Contract
-from pyvc.engine import LoopSpec, Builtin, fresh, named, zterm, INT, BOOL, STR
+from pyvc.engine import LoopSpec, Builtin, Obj, fresh, named, zterm, INT, BOOL, STR
 from pyvc.units import Lemma
 from pyvc import stubs, externals
 
@@ -529,3 +529,52 @@ def _gc_pre(eng, fr):
 
 generate_commands.pre_state = _gc_pre
 UNITS.append(generate_commands)
+
+
+# ------------------------------------------------------------------------------ _generate_count_dict (the worker of get_binned_counts)
+# one whole contig (no region limits, no custom filter): every pair yielded by mate_iter whose first slot holds a non-duplicate,
+# non-rejected record adds exactly 1 to the cell (bin of its site, its sample); nothing else changes
+def gcd_setup(eng):
+    def pair(e, nm, a=None, k=None):
+        r1 = stubs.make_read(e, nm + '_R1', tags=READ_TAGS)
+        e.assume(zterm(r1.attrs['reference_start'], INT) >= 0)
+        e.assume(zterm(r1.attrs['_vc_tags']['DS'][1], INT) >= 0)      # sites left of the contig start (CHIC at position 0/1) are outside
+        e.spec_env['REC'] = r1
+        has = fresh(BOOL, 'first_slot_filled')
+        e.spec_env['HAS_R1'] = has
+        return [r1 if e.branch(has.z) else None, None]
+    eng.loader.call_hooks['singlecellmultiomics.bamProcessing.bamFunctions.mate_iter'] = \
+        lambda e, f, a, k, n: stubs.ObjSeq(pair, 'pairs')
+    eng.loader.call_hooks['singlecellmultiomics.bamProcessing.bamBinCounts.mate_iter'] = \
+        lambda e, f, a, k, n: stubs.ObjSeq(pair, 'pairs')
+
+    def bam(e, a, k, n):
+        o = Obj('CountBam', {})
+        o.vc_immutable = True
+        return o
+    stubs.STUBS['CountBam'] = {'methods': {'__enter__': lambda e, o: o, '__exit__': lambda e, o, *a: None}, 'props': {}, 'setters': {}}
+    externals.EXTRA['pysam.AlignmentFile'] = bam
+
+
+GCD_SITE = '(REC.get_tag("DS") if REC.has_tag("DS") else (REC.reference_end if REC.is_reverse else REC.reference_start))'
+GCD_SAMPLE = '(REC.get_tag("SM") if REC.has_tag("SM") else "No_Sample")'
+GCD_COUNTED = '(HAS_R1 and not REC.is_duplicate and not REC.is_qcfail)'
+generate_count_dict = Contract(
+    PROP, F + '::_generate_count_dict', name='_generate_count_dict[whole contig, default filter]',
+    params={'args': ('tuple', ('const', 'in.bam'), 'int', 'str', 'none', 'none', 'none')},
+    requires=['args[1] >= 1'],
+    setup=gcd_setup,
+    loops={0: LoopSpec(
+        inv={}, must_exhaust=True,
+        types={'cut_counts': ('symdict', [(STR, INT), (STR,)], INT, 0), 'i': 'frame'},
+        body_post={
+            'counted_once_in_the_bin_of_its_site_iff_it_passes': (
+                'forall("c:str a s:str", dget(cut_counts, (c, a), s, 0) == dget(head(cut_counts, 0), (c, a), s, 0) + '
+                '(1 if (%s and c == contig and a == bin_size * fdiv(%s, bin_size) and s == %s) else 0))'
+                % (GCD_COUNTED, GCD_SITE, GCD_SAMPLE)),
+        })},
+    raises={},
+    assumptions=['mate_iter through its own (bounded) units: pairs [R1 or None, R2]; DS tag a non-negative integer; '
+                 'A3 int(site/bin_size) exact'],
+)
+UNITS.append(generate_count_dict)
